@@ -340,6 +340,29 @@ fn run_case(c: &Case) -> Outcome {
                 }
             }
         }
+        // a player whose cookie was refused is authenticated afresh: once routed it is a "freshly
+        // authenticated and then routed" player like any other and leaves with a cookie of its own
+        if let (false, Some(true), Some(secret), Some(tr)) = (expect_accept, f2.enc_flag, &c.secret, f2.transfers.first()) {
+            let fresh: Vec<_> = f2.store_cookies.iter().filter(|s| s.0 == AUTH_KEY).collect();
+            match fresh.as_slice() {
+                [] => bad(format!("auth-cookie-missing/after-refused-cookie/{:?}", c.second), "a player whose presented cookie was refused was authenticated afresh and routed, but was given no authentication cookie before the Transfer".into(), json!({})),
+                [one] => {
+                    let body_ok = one.1.len() > 32 && hmac_sha256(secret, &one.1[32..])[..] == one.1[..32];
+                    let j: Value = one.1.get(32..).and_then(|b| serde_json::from_slice(b).ok()).unwrap_or(Value::Null);
+                    let names_client = j["client_addr"].as_str().and_then(|s| s.parse::<SocketAddr>().ok()) == Some(addr2);
+                    let names_player = j["user_name"] == json!(c.authed.name) && j["user_id"].as_str().and_then(parse_uuid) == Some(c.authed.uuid);
+                    let is_fresh = matches!(j["timestamp"].as_u64(), Some(ts) if ts + 1 >= t_before && ts <= now_unix() + 1);
+                    if !body_ok || !names_client || !names_player || !is_fresh || one.3 > tr.3 {
+                        bad(
+                            format!("auth-cookie-after-refused-cookie-wrong/{:?}", c.second),
+                            "the authentication cookie given after a refused cookie and a fresh authentication is not a fresh cookie for this client and player".into(),
+                            json!({"tag_ok": body_ok, "names_this_client": names_client, "names_the_player": names_player, "timestamp_fresh": is_fresh, "cookie": j}),
+                        );
+                    }
+                }
+                _ => bad("auth-cookie-twice".into(), "more than one authentication cookie stored on the second connection".into(), json!({})),
+            }
+        }
         drop(bad);
         check_session(c, &sc2, &run2, session2.is_some(), "second", &mut findings, &mut ids);
     }
